@@ -758,6 +758,24 @@ pub fn c13(tier: Tier) -> ! {
                     run.fail(None, &format!("Shape::score {} differs from the pair sum {}", sc, sum), json!({"molecule": mi, "placement": k}));
                 }
             }
+            // both molecules moved far from the origin by an exactly representable translation:
+            // still the pair sum, and the same energy as near the origin
+            if dist > 2. {
+                let far = Transform2::new(0., (65536., -65536.));
+                let (m2, o2) = (mol.transform(&far), other.transform(&far));
+                let e_far = m2.energy(&o2);
+                let mut sum_far = 0.;
+                for a in m2.items.iter() {
+                    for b in o2.items.iter() {
+                        sum_far += a.energy(b);
+                    }
+                }
+                evals += 1;
+                mol_evals += 1;
+                if !((e_far - sum_far).abs() <= 1e-9 * (1. + sum_far.abs())) || !((e_far - total).abs() <= 1e-8 * (1. + total.abs())) {
+                    run.fail(None, &format!("two molecules moved together by (65536, -65536): energy {} (pair sum there {}), near the origin {}", e_far, sum_far, total), json!({"molecule": mi, "placement": k, "engine": "far"}));
+                }
+            }
             // transformed particles keep sigma, epsilon, cutoff
             for (a, b) in mol.items.iter().zip(other.items.iter()) {
                 if a.sigma != b.sigma || a.epsilon != b.epsilon || a.cutoff != b.cutoff {
@@ -921,6 +939,9 @@ pub fn c12(tier: Tier) -> ! {
         Aff::translation([10., -7.]),
         Aff::rot_trans(0.7, [10., -7.]).after(&Aff::mirror_x()),
         Aff { m: [[0., 1.], [1., 0.]], t: [0.5, 0.] },
+        // far from the origin (an exact power of two, so the placement itself is carried over
+        // exactly): the answer must not depend on where the pair sits
+        Aff::translation([131072., 131072.]),
     ];
     let results = par_map(&jobs, |_, (name, spec, _ri, rot, mirror)| {
         let shape = to_test_shape(spec);
@@ -1269,6 +1290,36 @@ pub fn c02(tier: Tier) -> ! {
                 }
             }
         }
+        // states with two occupied sites of different multiplicity, in both orders: the number of
+        // copies is the sum of the sites' multiplicities
+        let ident = wyckoff_json("p1");
+        let r_enc = body.enclosing_radius();
+        for g in ["p2", "p2mg", "p1m1"].iter() {
+            let n = ita_ops(g).len() as f64;
+            let general = wyckoff_json(g);
+            let p = Params { length: (n + 1.) * (4. * r_enc + 1.), ratio: 1., angle: PI / 2., x: 0.13, y: 0.21, phi: 0.3 };
+            let one = StateTemplate::new(g, &sj).with(&p);
+            let mut swapped = with_second_site(&one, &ident, -0.37, -0.4, 1.3);
+            {
+                let sites = swapped["occupied_sites"].as_array_mut().unwrap();
+                sites.swap(0, 1);
+            }
+            for (label, doc) in [("general site first", with_second_site(&one, &ident, -0.37, -0.4, 1.3)), ("site of multiplicity one first", swapped), ("two general sites", with_second_site(&one, &general, -0.37, -0.4, 1.3))].iter() {
+                let copies = if *label == "two general sites" { 2. * n } else { n + 1. };
+                let st = match AnyState::from_json(doc) {
+                    Ok(s) => s,
+                    Err(e) => machinery_error(&format!("two-site state does not deserialise: {}", e)),
+                };
+                evals += 1;
+                if let Some(score) = st.score() {
+                    valid_states += 1;
+                    let want = copies * want_area / p.lattice().area();
+                    if !((score - want).abs() <= 1e-8 * want.abs()) && fails.len() < 3 {
+                        fails.push((key, format!("{} {} with two occupied sites ({}): score {} but {} copies x area / cell area = {}", g, spec.label(), label, score, copies, want), json!({"engine": "document", "group": g, "shape": spec.label(), "state": doc})));
+                    }
+                }
+            }
+        }
         (evals, valid_states, fails)
     });
     let mut evals = 0u64;
@@ -1342,7 +1393,8 @@ pub fn c02(tier: Tier) -> ! {
         for g in GROUP_NAMES.iter() {
             let n = ita_ops(g).len() as f64;
             let tpl = StateTemplate::new(g, &sj);
-            for &(l, r) in [(30., 1.), (16., 0.5), (9., 0.8), (8.4, 0.3), (40., 0.25)].iter() {
+            // (the last four: densities that differ in the 9th, 7th, 6th and 5th digit)
+            for &(l, r) in [(30., 1.), (16., 0.5), (9., 0.8), (8.4, 0.3), (40., 0.25), (30. * (1. + 1e-9), 1.), (30. * (1. + 1e-7), 1.), (30. * (1. + 1e-6), 1.), (30. * (1. + 3e-5), 1.)].iter() {
                 let p = Params { length: l, ratio: r, angle: PI / 2., x: 0.13, y: 0.21, phi: 0.3 };
                 let st = AnyState::from_json(&tpl.with(&p)).unwrap();
                 if st.score().is_some() {
@@ -1362,6 +1414,15 @@ pub fn c02(tier: Tier) -> ! {
                     _ => None,
                 };
                 let want = da.partial_cmp(db);
+                // the total order (what max() over replicas uses) agrees
+                let (got_total, max_is_denser) = match (a, b) {
+                    (AnyState::Poly(x), AnyState::Poly(y)) => (Some(x.cmp(y)), std::cmp::max(x.clone(), y.clone()).score().map(f64::to_bits) == if da > db { x.score().map(f64::to_bits) } else { y.score().map(f64::to_bits) }),
+                    (AnyState::Mol(x), AnyState::Mol(y)) => (Some(x.cmp(y)), std::cmp::max(x.clone(), y.clone()).score().map(f64::to_bits) == if da > db { x.score().map(f64::to_bits) } else { y.score().map(f64::to_bits) }),
+                    _ => (None, true),
+                };
+                if got_total != want || !max_is_denser {
+                    run.fail(None, &format!("{}: cmp()/max() rank two states {:?} (max picks the denser one: {}) but their densities {} and {} rank {:?}", spec.label(), got_total, max_is_denser, da, db, want), json!({"shape": spec.label(), "a": la, "b": lb}));
+                }
                 if got != want {
                     run.fail(None, &format!("{}: states ranked {:?} but their densities {} and {} rank {:?}", spec.label(), got, da, db, want), json!({"shape": spec.label(), "a": la, "b": lb}));
                 }
